@@ -14,6 +14,29 @@ Theorem C12_invariant : forall ops c,
 Proof. exact crun_well_typed. Qed.
 Print Assumptions C12_invariant.
 
+(** The same over histories in which the application declares the range AGAIN between updates
+    (Int/Float.SetMinValue / SetMaxValue or the exported fields, as accessory.NewThermostat does),
+    every new range being of the format's type and ordered: no step panics, the stored value keeps
+    the declared type throughout, every value an update stores or hands to a callback lies within
+    the range IN FORCE at that moment, and after every storing update of a readable characteristic
+    the stored value is within it.  (Between a narrowing declaration and the next storing update
+    the old value stays: hc does not touch the value when the range is declared.) *)
+Theorem C12_ranges_declared_again : forall ops c,
+  declared (format c) -> bounds_ok c = true -> typed c = true -> redecl_ok c ops ->
+  exists tr, crun2 true c ops = Ok tr /\ Forall step_ok tr.
+Proof. exact crun2_redeclared. Qed.
+Print Assumptions C12_ranges_declared_again.
+
+Example C12_ranges_declared_again_nonvacuous :
+  declared (format thermo) /\ bounds_ok thermo = true /\ typed thermo = true /\
+  redecl_ok thermo [CUpd (CLocal (VFloat f35 35)); CRedeclare (BFloat f15) (BFloat f30); CUpd (CRemote 1 (VFloat f35 35))] /\
+  exists c1 c2 c3 cb1 cb3,
+    crun2 true thermo [CUpd (CLocal (VFloat f35 35)); CRedeclare (BFloat f15) (BFloat f30); CUpd (CRemote 1 (VFloat f35 35))]
+    = Ok [(c1, [cb1]); (c2, []); (c3, [cb3])] /\
+    cvalue c1 = Some (VFloat f35 0) /\ cvalue c2 = Some (VFloat f35 0) /\ well_typed c2 = false /\
+    cvalue c3 = Some (VFloat f30 0) /\ well_typed c3 = true.
+Proof. exact redeclared_nonvacuous. Qed.
+
 (** Consequently the typed getters' type assertions succeed on every stored value (and floats
     are finite, so the attribute database encodes). *)
 Theorem C12_getters_total : forall c v,
